@@ -234,5 +234,113 @@ def target_simulate():
     return (f"{CIRC}:{qual}", CIRC, qual, run)
 
 
+DRTM = "cli/drt"
+DRT_FORWARDED = ("method", "mode", "lambda_value", "cross_validation", "rbf_type", "derivative_order", "rbf_shape", "shape_coeff", "inductance", "credible_intervals",
+                 "timeout", "num_samples", "num_attempts", "maximum_symmetry", "gaussian_width", "num_per_decade", "max_nfev", "max_iter", "model_order",
+                 "model_order_method", "num_procs")
+
+
+def target_drt_command(which: str):
+    """cli/drt.py individual_plots / overlay_plot: calculate_drt is called once per data set with the (filtered) data set and,
+    argument for argument, the command-line options; the report is made of the tables of exactly that result."""
+    qual = which
+
+    def run(sess: Session):
+        for n_data, method, threshold, analyze in itertools.product((1, 2), ("tr-nnls", "bht"), (-1.0, 0.5), (False, True)):
+            if which == "overlay_plot" and analyze:
+                continue
+            ds = [FakeData(f"d{i}") for i in range(n_data)]
+            printed, calls, fmt, filtered, peaks_calls = [], [], [], [], []
+            A = {k: T.var("args." + k) for k in DRT_FORWARDED if k != "method"}
+            A["circuit"] = T.var("args.circuit")
+            for k in ("num_peaks", "disallow_skew", "plot_frequency"):
+                A[k] = T.var("args." + k)
+            args = SimpleNamespace(method=method, peak_threshold=threshold, analyze_peaks=analyze, peak_positions=[], plot_type="drt", plot_title=False, output=False,
+                                   output_name=[""], plot_no_legend=True, plot_colored_axes=False, plot_admittance=False, plot_color=None, plot_dpi=100, **A)
+
+            class Peaks:
+                def __init__(self, k):
+                    self.k = k
+
+                def to_peaks_dataframe(self):
+                    return ("analysed-peaks", self.k)
+
+            class Drt:
+                def __init__(self, k):
+                    self.k = k
+
+                def to_statistics_dataframe(self):
+                    return ("stats", self.k)
+
+                def to_peaks_dataframe(self, **kw):
+                    return ("peaks", self.k, kw)
+
+                def to_scores_dataframe(self):
+                    return ("scores", self.k)
+
+                def analyze_peaks(self, **kw):
+                    peaks_calls.append((self.k, kw))
+                    return Peaks(self.k)
+
+                def get_label(self):
+                    return "drt"
+
+            def calculate_drt(d, **kw):
+                calls.append((d, kw))
+                return Drt(len(calls))
+
+            def format_text(df, a):
+                fmt.append((df, a))
+                return f"<<table{len(fmt)}>>"
+
+            class Fig:
+                def tight_layout(self):
+                    pass
+
+                def savefig(self, *a, **k):
+                    pass
+
+            class Axis:
+                def legend(self):
+                    pass
+            plot = lambda *a, **k: (Fig(), [Axis(), Axis()])
+            mpl = SimpleNamespace(**{n: plot for n in ("plot_bode", "plot_drt", "plot_gamma", "plot_imaginary", "plot_magnitude", "plot_nyquist", "plot_phase", "plot_real", "plot_real_imaginary")})
+            mpl.plot_drt = lambda *a, **k: (Fig(), [Axis(), Axis()])
+            mpl.plot_gamma = lambda *a, **k: (Fig(), [Axis(), Axis()])
+            parsed = []
+            ns = {"parse_cdc": lambda s_: parsed.append(s_) or ("circuit", len(parsed)), "apply_filters": lambda x, a: filtered.append(x), "calculate_drt": calculate_drt,
+                  "format_text": format_text, "mpl": mpl, "get_backend": lambda: "agg", "clear_default_handler_output": lambda: None, "get_color": lambda c: "k",
+                  "plt": SimpleNamespace(close=lambda: None, show=lambda: None), "COLOR_BLACK": "k", "get_output_path": None, "len": len, "list": list, "map": map,
+                  "enumerate": enumerate, "hasattr": hasattr, "isinstance": lambda a, b: False, "LMResult": object, "open": None, "_color_axis": lambda *a, **k: None,
+                  "DataFrame": None, "DRTPeaks": None, "DRTResult": None, "DataSet": None}
+            O.load(DRTM, [qual], ns)
+            ns[qual]({"path": list(ds)}, args, printed.append)
+            tag = f"[data sets={n_data},method={method},peak_threshold={threshold},analyze_peaks={analyze}]"
+            sess.check("post", [], z3.BoolVal(filtered == ds), 0, label=f"{tag}apply_filters on every data set, once, before it is analysed")
+            sess.check("post", [], z3.BoolVal(len(calls) == n_data and all(c[0] is d for c, d in zip(calls, ds))), 0, label=f"{tag}one calculate_drt call per data set, on that data set")
+            for i, (d, kw) in enumerate(calls):
+                sess.check("post", [], z3.BoolVal(sorted(kw) == sorted(DRT_FORWARDED + ("circuit",))), 0, label=f"{tag}call {i}: keyword set")
+                sess.check("post", [], z3.BoolVal(kw.get("method") == method and kw.get("circuit") == ("circuit", i + 1) and parsed[i] is A["circuit"]), 0, label=f"{tag}call {i}: method, circuit=parse_cdc(args.circuit)")
+                for key in DRT_FORWARDED:
+                    if key != "method":
+                        sess.check("post", [], z3.BoolVal(kw.get(key) is A[key]), 0, label=f"{tag}call {i}: {key}=args.{key}")
+            want = []
+            for i in range(n_data):
+                want.append(("stats", i + 1))
+                if threshold >= 0.0:
+                    want.append(("peaks", i + 1, {"threshold": threshold}))
+                if method == "bht":
+                    want.append(("scores", i + 1))
+                if analyze:
+                    want.append(("analysed-peaks", i + 1))
+            sess.check("post", [], z3.BoolVal([f[0] for f in fmt] == want and all(f[1] is args for f in fmt)), 0, label=f"{tag}report tables = statistics[, peaks][, scores][, analysed peaks] of the result of that data set, in order")
+            if analyze:
+                sess.check("post", [], z3.BoolVal([c[0] for c in peaks_calls] == list(range(1, n_data + 1)) and all(c[1].get("num_peaks") is A["num_peaks"] and c[1].get("disallow_skew") is A["disallow_skew"] and c[1].get("peak_positions") is None for c in peaks_calls)), 0,
+                           label=f"{tag}analyze_peaks(num_peaks=args.num_peaks, peak_positions=None for an empty list, disallow_skew=args.disallow_skew) on every result")
+            text = "\n".join(p for p in printed if isinstance(p, str))
+            sess.check("post", [], z3.BoolVal(all(f"<<table{k + 1}>>" in text for k in range(len(fmt))) and text.count("<<table") == len(fmt)), 0, label=f"{tag}every table is printed exactly once")
+    return (f"{DRTM}:{qual}", DRTM, qual, run)
+
+
 def targets():
-    return [target_apply_filters(), target_get_mock_data(), target_parse_command(), target_fit_command(), target_simulate()]
+    return [target_apply_filters(), target_get_mock_data(), target_parse_command(), target_fit_command(), target_simulate(), target_drt_command("individual_plots"), target_drt_command("overlay_plot")]
